@@ -6,6 +6,16 @@ import multiprocessing as mp
 
 
 def run_config(args):
+    try:
+        return _run_config(args)
+    except PathEnd as e:
+        raise
+    except Exception as e:
+        import traceback
+        return dict(config=args[0], histories=0, obligations=0, discharged=0, sat=[], problems=['worker exception: ' + traceback.format_exc()[-400:]], paths=0, panics=0, fns={}, models=[], sample=None)
+
+
+def _run_config(args):
     config, tier = args
     G = c04._G
     ctx = Ctx(G['prog'], G['enums'])
